@@ -11,10 +11,13 @@ CLAIMED = {
              "(PLY actions as a fold) parses it and `includes`/`is_last` equal the denotation; for every file and every "
              "non-stopping matcher the modelled run loop offers exactly the denoted non-blank records. The model is tied to "
              "/repo by the `scan` correspondence suite (scanner state, includes, is_last, run loop under the recorded matcher) "
-             "and the real run is compared with the denotation on every case (exhaustive over class K for N<=5 in thorough).",
+             "and the real run is compared with the denotation on every case (exhaustive over class K for N<=5 in thorough). "
+             "Source tie (T): `Scanner.includes` and `Scanner.is_last` are translated from /repo's working tree to Lean on every run "
+             "(tools/py2lean.py -> Generated/CoreScanner.lean) and proved equal to the model's includes/isLast for every scanner state "
+             "and line (Props/C02Tie.lean), so the denotation theorem is also stated of the translated source (c02_includes_source).",
         note="Trusts: Lean kernel + propext/Classical.choice/Quot.sound; the correspondence harness; PLY's LALR reduction order "
              "(observed, not verified); csv.reader. Proof covers class K; scan parts outside K are compared with the model only.",
-        technique="Lean 4 proof (fold invariant over the + list, induction over records) + model/implementation correspondence",
+        technique="Lean 4 proof (fold invariant over the + list, induction over records) + source translator with bridging theorems (includes, is_last) + model/implementation correspondence",
         design="6/C02",
     ),
 }
@@ -50,10 +53,14 @@ CLAIMED["C14"] = dict(
          "equals the documented decision list; corollaries latch-never-negative, nocontrib-neutral, onmatch gate, and the "
          "fold over any assignment history. Tie: suite `assign` calls the real _do_assignment_new_impl on every point of the "
          "quantifier's domain (21,504 points incl. both logic modes) and runs real csvpaths over 3-line files (sampled in "
-         "quick, exhaustive in thorough), comparing with the model and with the documented table.",
+         "quick, exhaustive in thorough), comparing with the model and with the documented table. Source tie (T): "
+         "`Equality._do_assignment_new_impl`, `_latch_and_onchange`, `_set_variable_if` and `_test_friendly_line_matches` are translated "
+         "from /repo's working tree to Lean on every run (Generated/CoreAssign.lean) and proved equal to the model for every qualifier "
+         "set, value pair, logic mode and look-ahead answer (Props/C14Tie.assignment_source_is_model); c14_table_source states the "
+         "documented table of the translated source itself.",
     note="Hypotheses of the theorem: Python can order the two values (no int vs str), and the new value is not a falsy non-None "
          "value under increase/decrease (outside the property's quantifier; those points are run and counted in the evidence).",
-    technique="Lean 4 proof (case analysis over qualifier sets + integer/string order lemmas) + exhaustive correspondence",
+    technique="Lean 4 proof (case analysis over qualifier sets + integer/string order lemmas) + source translator with bridging theorem + exhaustive correspondence",
     design="6/C14",
 )
 
@@ -63,10 +70,16 @@ CLAIMED["C05"] = dict(
          "independent; a raise abandons the rest); the override wins over the policy for raise/print/stop/fail; the validation-mode "
          "token reader is correct on the whole table of documented settings (3^5 combinations, kernel-evaluated). Tie: suite `errors` "
          "drives the real ErrorHandler/ValidationMode on every policy x setting (unit) and real csvpaths with seven kinds of "
-         "error-provoking components at chosen lines and positions (run), comparing with the model and with the flags' meaning.",
+         "error-provoking components at chosen lines and positions (run), comparing with the model and with the flags' meaning. "
+         "Source tie (T): `ErrorHandler._handle_if` and `ErrorCommsManager.do_i_raise/print/stop/fail` are translated from /repo's "
+         "working tree to Lean on every run (Generated/CoreHandleIf.lean) and proved to perform the model's effects in the model's order "
+         "and to raise exactly when the model does (Props/C05Tie.handle_if_source_is_model, c05_policy_source).",
     note="Which component raises what (Args validation, Python exceptions inside functions) is exercised on the real code, not modelled; "
-         "'quiet' only changes logging. With validation-mode `match` the property makes no positive claim and the oracle makes none.",
-    technique="Lean 4 proof (induction over the error list; decide +kernel over the token table) + correspondence",
+         "'quiet' only changes logging. With validation-mode `match` the oracle demands that an erroring component counts as matching where the "
+         "erroring function is the component itself, the value of its assignment or the do-part of its when (argument mismatches; exceptions "
+         "that reach the Expression's own trap); a Python exception trapped inside a bare function component simply does not match, which the "
+         "property's 'unless' leaves open.",
+    technique="Lean 4 proof (induction over the error list; decide +kernel over the token table) + source translator with bridging theorem (_handle_if, do_i_*) + correspondence",
     design="6/C05",
 )
 
@@ -319,7 +332,7 @@ def main():
             na.append({"property_id": pid, "reason": NA.get(pid, NOT_YET)})
     man = {
         "version": 1,
-        "setup_cmd": "/venv/bin/python tools/extract.py; cd lean && lake build",
+        "setup_cmd": "/venv/bin/python tools/extract.py; cd lean && (lake build || true)",
         "hooks": {
             "guard": "CSVPATH_VERIF",
             "enable": "no hooks in /repo: the harness instruments the real code in-process (monkeypatching from harness/real_run.py); "
@@ -331,7 +344,7 @@ def main():
         "engines": [
             {"name": "lean-model+harness", "path": "/verif/lean, /verif/harness, /verif/verify",
              "serves_properties": sorted(CLAIMED),
-             "kind_free_text": "Lean 4 model + theorems (lake build, #print axioms audit) tied to /repo by a differential correspondence harness driving the real code in-process and a compiled Lean driver over a JSON line protocol, plus a translator (tools/extract.py) that regenerates the model's tables from the source on every run"}
+             "kind_free_text": "Lean 4 model + theorems (lake build, #print axioms audit) tied to /repo by a differential correspondence harness driving the real code in-process and a compiled Lean driver over a JSON line protocol, plus a translator (tools/extract.py, tools/py2lean.py) that on every run regenerates from the source the model's tables and the Lean translation of selected decision cores (the assignment decision, the error handler, the scanner's line tests), which bridging theorems prove equal to the hand-written model"}
         ],
         "checks": checks,
         "not_applicable": na,
